@@ -188,6 +188,8 @@ def call_builtin(ip, fn, args, kwargs, lineno):
 
 
 def model_isinstance(ip, v, cls):
+    if isinstance(cls, tuple) and len(cls) == 2 and cls[0] == "np":
+        cls = getattr(_np, cls[1])
     if isinstance(cls, tuple):
         rs = [model_isinstance(ip, v, k) for k in cls]
         return any(rs)
@@ -393,6 +395,14 @@ def call_np(ip, name, args, kwargs, lineno):
         raise Unsupported("broadcast_to")
     if name == "searchsorted":
         return searchsorted(ip, args[0], args[1], kwargs.get("side", args[2] if len(args) > 2 else "left"), lineno)
+    if name == "lib.stride_tricks.sliding_window_view":
+        a, w = args[0], args[1]
+        M.use("sliding_window_view(a, w): windows[p, j] = a[p + j], N-w+1 windows (w <= N else ValueError)")
+        if not c.branch(I(w) <= I(a.length), lineno):
+            raise PathEnd("raise", "ValueError")
+        c.check("%s:window.positive@L%s" % (fn, lineno), I(w) >= 1, "safety", lineno, "window size >= 1")
+        f = a.snapshot()
+        return SArr2.fresh(conc(I(a.length) - I(w) + 1), w, lambda p, j: f(I(p) + I(j)), a.kind, a.enc)
     if name == "lexsort" or name == "argsort" or name == "sort":
         raise Unsupported("np.%s (partial contract only; bounded)" % name)
     if name == "logical_and":
@@ -737,6 +747,9 @@ def make_ragged(ip, data, shape, enc, lineno):
         M.same_len(shape.starts.length, shape.lens.length, "raggedview", lineno)
         fs, fl = shape.starts.snapshot(), shape.lens.snapshot()
         return SRaggedObj(fd, shape.starts.length, fs, fl, enc, data.length)
+    if isinstance(shape, RShape):
+        M.use("RaggedArray(data, shape, safe_mode=False): rows index the data at the shape's starts/lengths, unchecked")
+        return SRaggedObj(fd, shape.n, shape.starts, shape.lens, enc, data.length, contiguous=False, C=shape.C)
     if isinstance(shape, (SArr, list, SymList)):
         lens = as_arr(ip, shape)
         fl = lens.snapshot()
@@ -747,6 +760,28 @@ def make_ragged(ip, data, shape, enc, lineno):
     raise Unsupported("ragged shape %r" % (shape,))
 
 
+class RShape:
+    """ragged shape object (npstructures RaggedShape / RaggedView): row starts and lengths"""
+
+    def __init__(self, n, starts, lens, C=None, contiguous=False):
+        self.n, self.starts, self.lens, self.C, self.contiguous = n, starts, lens, C, contiguous
+
+    def getitem(self, ip, idx, lineno):
+        k = conc(idx)
+        if k == -1:
+            return SArr.fresh(self.n, self.lens)     # shape[-1] is the array of row lengths
+        if k == 0:
+            return self.n
+        raise Unsupported("ragged shape index %r" % (idx,))
+
+    def getattr(self, ip, name, lineno):
+        if name == "lengths":
+            return SArr.fresh(self.n, self.lens)
+        if name == "starts":
+            return SArr.fresh(self.n, self.starts)
+        raise Unsupported("ragged shape attribute %s" % name)
+
+
 class SRaggedObj(SRagged):
     def __init__(self, data_at, n, starts, lens, enc, total, contiguous=False, C=None):
         SRagged.__init__(self, data_at, n, starts, lens, enc, contiguous, total)
@@ -754,15 +789,51 @@ class SRaggedObj(SRagged):
         self.is_contigous = contiguous
 
     def getattr(self, ip, name, lineno):
-        from .interp import BoundMethod
         if name == "ravel":
             return _RaggedMethod(self, "ravel")
         if name == "is_contigous":
             return self.is_contigous
+        if name in ("shape", "_shape"):
+            return RShape(self.n, self.starts, self.lens, self.C, self.contiguous)
+        if name == "lengths":
+            return SArr.fresh(self.n, self.lens)
+        if name == "encoding":
+            return self.enc
+        if name == "raw":
+            return _RaggedMethod(self, "raw")
         raise Unsupported("ragged attribute %s" % name)
 
     def sym_len(self, ip):
         return self.n
+
+    def getitem(self, ip, idx, lineno):
+        """row-wise column slicing  r[..., lo:hi] / r[:, lo:hi]: every row is sliced with CPython slice semantics
+        against ITS OWN length (npstructures; assumed, validated bounded).  A VIEW of the same data."""
+        full = slice(None, None, None)
+        if isinstance(idx, tuple) and len(idx) == 2 and (idx[0] is Ellipsis or idx[0] == full) and isinstance(idx[1], slice):
+            sl = idx[1]
+            if sl.step not in (None, 1):
+                if sl.start is None and sl.stop is None and conc(sl.step) == -1:
+                    st0, ln0, d0 = self.starts, self.lens, self.data_at
+                    M.use("ragged[:, ::-1] reverses every row")
+                    r = SRaggedObj(None, self.n, st0, ln0, self.enc, self.total)
+                    r.at = lambda i, k: d0(I(st0(i)) + I(ln0(i)) - 1 - I(k))
+                    return r
+                raise Unsupported("strided ragged column slice")
+            M.use("ragged[..., lo:hi] slices every row against its own length")
+            st0, ln0 = self.starts, self.lens
+
+            def bounds(i):
+                return M.norm_slice(sl.start, sl.stop, ln0(i))
+            new_starts = lambda i: I(st0(i)) + I(bounds(i)[0])
+            new_lens = lambda i: M.slice_len(*bounds(i))
+            return SRaggedObj(self.data_at, self.n, new_starts, new_lens, self.enc, self.total)
+        if isinstance(idx, (int, z3.ArithRef)):
+            i = M.wrapneg(idx, self.n)
+            ip.ctx.check("%s:index.inbounds@L%s" % (ip.ctx.fname, lineno), in_range(i, self.n), "safety", lineno)
+            d0, s0 = self.data_at, self.starts(i)
+            return SArr.fresh(self.lens(i), lambda k: d0(I(s0) + I(k)), "int", self.enc)
+        raise Unsupported("ragged index %r" % (idx,))
 
 
 class _RaggedMethod:
@@ -773,6 +844,9 @@ class _RaggedMethod:
         r = self.r
         if self.name == "ravel":
             return ragged_ravel(ip, r, lineno)
+        if self.name == "raw":
+            r2 = SRaggedObj(r.data_at, r.n, r.starts, r.lens, None, r.total, r.contiguous, r.C)
+            return r2
         raise Unsupported("ragged method")
 
 
@@ -782,6 +856,8 @@ def ragged_ravel(ip, r, lineno):
     Given through a Skolem row-of-position function.  Requires lens >= 0 (obligation).  EXACT."""
     M.use("RaggedArray.ravel (concatenation of rows)")
     c = ip.ctx
+    if r.contiguous and r.total is not None:
+        return SArr.fresh(r.total, r.data_at, "int", r.enc)
     n = r.n
     fl, fs, fd = r.lens, r.starts, r.data_at
     c.oblige("%s:ragged.lens.nonneg@L%s" % (c.fname, lineno),
